@@ -15,10 +15,13 @@ from vlib import common, refmodel as M
 from vlib.common import Report
 from vlib.pybmc import Interp, GuardedLog, Unsupported, zand, znot, zor
 from vlib.dfa_enc import run_dfa
-from vlib import emlctx
+from vlib import emlctx, nodeenc
 
 PROP = "C01"
 BV = 12
+PATH_CAP = 3000
+PATH_BUDGET = 90
+MIN_RUNG = 3
 WIDE = ("datasetRule", "dataTableRule", "otherEntityRule", "physicalRule", "attributeRule")
 
 
@@ -106,33 +109,30 @@ def encode(job):
     spec = R.rules_dict[rule_name][1]
     mixed = rule_name in M.MIXED_RULES
     alpha = list(dict.fromkeys(M.symbols(spec)))
-    it = Interp(bv=BV, logic="QF_BV", seed=sd)
-    for a in alpha:
-        it.intern.code(a)
-    it.intern.code("")
-    syms = [it.name("n%d" % i) for i in range(L)]
-    names = list(prefix) + syms          # concrete access word of a reference-automaton state, then the symbolic part
-    Node.store.clear()
-    el = emlctx.element_for_rule(rule_name) or "x"
-    parent = Node(el, id="p", content=emlctx.valid_content(rule_name))
-    for k, v in emlctx.valid_attributes(rule_name).items():
-        parent.add_attribute(k, v)
-    kids = []
-    for i, nm in enumerate(names):
-        k = Node("?", id="c%d" % i)
-        k._name = nm
-        k._parent = parent
-        kids.append(k)
-    parent._children = kids
-    r = R.Rule(rule_name)
-    errs = GuardedLog(it) if collecting else None
+    el = emlctx.element_for_rule(rule_name)
+    st = nodeenc.Setup(rule_name, element=el, content="valid", attrs="valid", nsym_children=L, collecting=collecting, seed=sd)
+    st.prefix = prefix
     try:
-        it.call(r.validate_rule, [parent, errs], {})
+        view, h = nodeenc.run(st, max_paths=PATH_CAP, budget_s=PATH_BUDGET)
     except Unsupported as e:
         res["unsupported"] = str(e)
         return res
-    normal = it.g
-    esc = it.sinks[0]
+    it = view.q
+    for a in alpha:
+        it.intern.code(a)
+    syms = h.get("names", [])
+    names = list(prefix) + syms
+    res["mode"] = view.mode
+    res["paths"] = view.paths
+    el = el or "x"
+
+    class _E:
+        pass
+    errs = _E()
+    errs.entries = view.entries
+    errs.nonempty = view.log_nonempty
+    normal = view.normal
+    esc = view.esc
     rej_ok = zor(*[g for g, e in esc if isinstance(e, OKERR)])
     if collecting:
         accept = zand(normal, znot(errs.nonempty()))
@@ -164,8 +164,9 @@ def encode(job):
         "rejects_member": zand(lo_acc, znot(accept)),
         "foreign_failure": other,
         "neither_accept_nor_reject": znot(zor(accept, reject, other)),
-        "unwinding": zor(*it.incomplete),
-        "overflow": zor(*it.overflow),
+        "path_coverage_hole": view.coverage_hole,
+        "unwinding": zor(*view.incomplete),
+        "overflow": zor(*view.overflow),
     }
     t1 = time.time()
 
@@ -184,8 +185,8 @@ def encode(job):
             res["twins"][qn + "_model"] = decode(s.model())
     res["t_solve"] = time.time() - t1
     res["t_total"] = time.time() - t00
-    res["stats"] = {k: (round(v, 3) if isinstance(v, float) else v) for k, v in it.stats.items()}
-    res["functions"] = sorted(it.encoded)
+    res["stats"] = {k: (round(v, 3) if isinstance(v, float) else v) for k, v in view.stats.items()}
+    res["functions"] = sorted(view.functions)
     res["dfa_states"] = [dlo[0], dhi[0]]
     return res
 
@@ -265,8 +266,13 @@ def run(tier, only=None):
             continue
         rep.encodings += 1
         if "unsupported" in r:
-            rep.inconclusive.append("%s: unsupported construct: %s" % (tag, r["unsupported"]))
+            if "exceeded its budget" in r["unsupported"] and L > MIN_RUNG:
+                rep.extra.setdefault("bound_ladder_stepped_down", []).append(tag)
+            else:
+                rep.inconclusive.append("%s: unsupported construct: %s" % (tag, r["unsupported"]))
             continue
+        if r.get("mode", "merged") != "merged":
+            rep.extra.setdefault("pathwise_encodings", []).append({"case": tag, "paths": r["paths"]})
         rep.functions.update(r["functions"])
         rep.solver_time += r["t_solve"] + r["stats"].get("t_check", 0)
         for qn, v in list(r["verdicts"].items()) + [(k, v) for k, v in r["twins"].items() if not k.endswith("_model")]:
@@ -275,7 +281,7 @@ def run(tier, only=None):
             if v == "unknown":
                 rep.inconclusive.append("%s: query %s unknown" % (tag, qn))
             elif v == "sat":
-                if qn in ("unwinding", "overflow"):
+                if qn in ("unwinding", "overflow", "path_coverage_hole"):
                     rep.inconclusive.append("%s: %s obligation open" % (tag, qn))
                     continue
                 seq = r["cex"][qn]
